@@ -78,6 +78,9 @@ func genTable(rng *fw.Rng, name string, count int) TableSpec {
 func genTableAt(rng *fw.Rng, name string, count int, inside *[4]float64) TableSpec {
 	t := TableSpec{Name: name, GeomCol: fw.Pick(rng, []string{"geom", "geometry", "shape"}), GeomType: fw.Pick(rng, []string{"POLYGON", "POLYGON", "MULTIPOLYGON", "POINT", "LINESTRING"}),
 		SRS: fw.Pick(rng, []int{28992, 3857, 3035, 4326, 100001, 900913}), Cols: genAttrCols(rng)}
+	if rng.Chance(1, 5) {
+		t.TypeNameCase = 1 + rng.Intn(2)
+	}
 	ox, oy := 0.0, 0.0
 	if rng.Chance(3, 4) { // away from the origin (also negative)
 		ox, oy = float64(rng.Intn(800000))-400000, 300000+float64(rng.Intn(300000))
@@ -253,7 +256,10 @@ func checkWritten(dst string, t *TableSpec, expectRows []RowSpec) (fs [][2]strin
 	if strings.Join(want, ";") != strings.Join(rt.Columns, ";") {
 		add("schema-differs", fmt.Sprintf("table %s: columns (cid|name|type|notnull|pk) %v, source has %v", t.Name, rt.Columns, want))
 	}
-	if rt.GeomColumn != t.GeomCol || rt.GeomTypeName != t.GeomType || rt.SRSID != t.SRS {
+	if t.TypeNameCase != 0 {
+		stats["geometry_type_name_not_upper_case_in_source"]++
+	}
+	if rt.GeomColumn != t.GeomCol || !strings.EqualFold(rt.GeomTypeName, t.GeomType) || rt.SRSID != t.SRS {
 		add("geometry-registration-differs", fmt.Sprintf("table %s: gpkg_geometry_columns has (%s,%s,%d), source (%s,%s,%d)", t.Name, rt.GeomColumn, rt.GeomTypeName, rt.SRSID, t.GeomCol, t.GeomType, t.SRS))
 	}
 	if !rt.InContents || rt.DataType != "features" {
@@ -447,7 +453,7 @@ func init() {
 		},
 		Rule: "TargetGeopackage (Init, CreateTables, Table=..., WriteFeatures on a channel fed by the harness, Close) on schemas obtained through SourceGeopackage.GetTableInfo from generated sources: 1-6 INTEGER/REAL/TEXT attributes with NULLs, POLYGON/MULTIPOLYGON/POINT/LINESTRING incl. empty geometries, geometries away from the origin, 4 reference systems, optionally a second table on the same target; page sizes {1,2,3,7,10} x every count 0..3*page+1 enumerated, plus random (count, page) up to page 1000; the file is read back with a plain sqlite3 connection: row count and order (fids ascending with gaps), attributes, decoded geometry, R-tree ids and boxes (float32 rounded outwards), gpkg_contents extent = bounding box of non-empty geometries (NULL if none), schema, geometry registration, srs row; non-trivial = stream longer than one page",
 		Required: func(string) []string {
-			return []string{"class:empty_stream", "class:exact_multiple_of_page", "class:multiple_plus_one", "class:two_or_more_pages", "two_tables_in_sequence", "empty_geometries", "index_entries_compared", "extents_compared", "srs_rows_compared", "srs_id_differs_from_organization_id", "exh:count_x_page_grid", "page_size:1000"}
+			return []string{"class:empty_stream", "class:exact_multiple_of_page", "class:multiple_plus_one", "class:two_or_more_pages", "two_tables_in_sequence", "empty_geometries", "index_entries_compared", "extents_compared", "srs_rows_compared", "srs_id_differs_from_organization_id", "geometry_type_name_not_upper_case_in_source", "exh:count_x_page_grid", "page_size:1000"}
 		},
 		MinNonTriv:  50,
 		Exhaustive:  map[string]string{"exh:count_x_page_grid": "page size in {1,2,3,7,10} x every feature count 0..3*page+1"},
